@@ -451,6 +451,9 @@ impl Terminal for UnixTerminal {
 
             // process signals
             if signal.is_readable() {
+                // all pending signals must be handled before returning, `pending`
+                // has already drained the pipe, so skipped signals would be lost
+                let mut quit = false;
                 for signal in self.signal_delivery.pending() {
                     match signal {
                         SIGWINCH => {
@@ -462,10 +465,13 @@ impl Terminal for UnixTerminal {
                             }
                         }
                         SIGTERM | SIGINT | SIGQUIT => {
-                            return Err(Error::Quit);
+                            quit = true;
                         }
                         _ => {}
                     }
+                }
+                if quit {
+                    return Err(Error::Quit);
                 }
             }
 
